@@ -385,7 +385,7 @@ def c20(case):
     if mode == "secwithin":
         from . import render as R
         try:
-            d = pytrs.PLSSDesc(a["text"], config="sec_within")
+            d = pytrs.PLSSDesc(a["text"], config=a.get("cfg", "sec_within"))
             short = R.tr_short(a["tr"])
             tracts, warned = [], []
             for t in d.tracts:
